@@ -30,6 +30,15 @@ type scriptReader struct {
 	evs []readEv
 	pos int
 	off int
+	flt error
+}
+
+// fault: the error this reader fails with (one kind per reader, see nextFault).
+func (r *scriptReader) fault() error {
+	if r.flt == nil {
+		r.flt = nextFault()
+	}
+	return r.flt
 }
 
 func (r *scriptReader) Read(p []byte) (int, error) {
@@ -45,7 +54,7 @@ func (r *scriptReader) Read(p []byte) (int, error) {
 			r.pos++
 			r.off = 0
 			if ev.kind == "de" {
-				return n, errInjected
+				return n, r.fault()
 			}
 			return n, nil
 		}
@@ -54,7 +63,7 @@ func (r *scriptReader) Read(p []byte) (int, error) {
 		return n, nil
 	case "e":
 		r.pos++
-		return 0, errInjected
+		return 0, r.fault()
 	default:
 		r.pos++
 		return 0, nil
@@ -81,6 +90,14 @@ type scriptWriter struct {
 	evs    []string
 	pos    int
 	writes [][]byte
+	flt    error
+}
+
+func (w *scriptWriter) fault() error {
+	if w.flt == nil {
+		w.flt = nextFault()
+	}
+	return w.flt
 }
 
 func (w *scriptWriter) Write(p []byte) (int, error) {
@@ -92,11 +109,11 @@ func (w *scriptWriter) Write(p []byte) (int, error) {
 	switch {
 	case ev == "fail":
 		w.writes = append(w.writes, []byte{})
-		return 0, errInjected
+		return 0, w.fault()
 	case ev == "full":
 		// everything is written and an error is returned all the same (a writer that syncs after writing)
 		w.writes = append(w.writes, append([]byte{}, p...))
-		return len(p), errInjected
+		return len(p), w.fault()
 	case strings.HasPrefix(ev, "short:"):
 		var n int
 		fmt.Sscanf(ev, "short:%d", &n)
